@@ -20,7 +20,7 @@ Requirements for the change
     cd {wt} && /venv/bin/python -m pytest -q -p no:cacheprovider --timeout=900 --continue-on-collection-errors -x -q test/<relevant files>
   and finally the whole suite once:  cd {wt} && /venv/bin/python -m pytest -q -p no:cacheprovider --timeout=900 --continue-on-collection-errors 2>&1 | tail -5
   NOTE: in this sandbox 90 tests ALWAYS fail for environmental reasons (installed xarray rejects Dataset(Dataset), so everything using ux.open_dataset/UxDataset fails; some sample files are empty). The baseline on the unchanged tree is exactly "90 failed, 177 passed". Your change must keep exactly the same 177 passing (compare the list of failures before/after: `... -rf | grep FAILED | sort`). Make sure python imports uxarray from your worktree (running pytest from the worktree root does that; verify with `cd {wt} && /venv/bin/python -c "import uxarray; print(uxarray.__file__)"`). `import uxarray` takes ~8 s; numba JIT can add ~40 s.
-- Write the demonstration as {wt}/demo_{pid.lower()}{tag}.py: a stand-alone script (uses only the public API named under observe_at where possible; build grids in memory with `ux.Grid.from_topology(node_lon=…, node_lat=…, face_node_connectivity=…, fill_value=…)` or `ux.open_grid(<face vertex list / xr.Dataset / sample file under test/meshfiles>)`; do NOT use ux.open_dataset/UxDataset — construct `ux.UxDataArray(data, dims=[…], uxgrid=grid)` directly if you need data) that exits 0 on the unchanged source and exits 1 (printing what is wrong) with your change. Run it both ways (use `git -C {wt} stash` / `stash pop`, or `git diff > /tmp/mut/{pid}{tag}.diff; git checkout -- uxarray; …; git apply`), and show the outputs.
+- Write the demonstration as {wt}/demo_{pid.lower()}{tag}.py: a stand-alone script (uses only the public API named under observe_at where possible; build grids in memory with `ux.Grid.from_topology(node_lon=…, node_lat=…, face_node_connectivity=…, fill_value=…)` or `ux.open_grid(<face vertex list / xr.Dataset / sample file under test/meshfiles>)`; do NOT use ux.open_dataset/UxDataset — construct `ux.UxDataArray(data, dims=[…], uxgrid=grid)` directly if you need data) that exits 0 on the unchanged source and exits 1 (printing what is wrong) with your change. Run it both ways (do NOT use `git stash`: the stash is shared between all worktrees of the repository and other agents work in parallel; use `git diff > /tmp/mut/{pid}{tag}.diff; git checkout -- uxarray; …; git apply`), and show the outputs.
 - Save the final change as a unified diff made with `git -C {wt} diff -- uxarray > /tmp/mut/{pid}{tag}.diff` (paths relative to the repo root, so that `git apply` works in another checkout) and copy the demo to /tmp/mut/demo_{pid.lower()}{tag}.py. Leave the worktree with the change applied.
 
 Final message: (1) the diff, (2) one paragraph on why it breaks the property and exactly what is needed for it to manifest, (3) the test-suite result lines before/after, (4) the demo outputs with and without the change.
